@@ -150,6 +150,7 @@ func c15Run(r *core.Run) {
 	rep := c15Outcomes[repIdx]
 	r.Eventf("world: quoteLen=%d rdKind=%d report=%+v arbStatus=%#x", len(quoteRaw), rdKind, rep, arbStatus)
 
+	var kept []c15Kept
 	for qi, qo := range c15Outcomes {
 		for si, st := range statuses {
 			for oi, ol := range outLens {
@@ -159,7 +160,7 @@ func c15Run(r *core.Run) {
 						continue
 					}
 					s := &c15Script{report: rep, quote: qo, status: st, outLen: ol, bufKind: bk, tdReport: tdReport, quoteRaw: quoteRaw, garbage: garbage}
-					c15Judge(r, name, s, rd, statusNames[si], outNames[oi])
+					c15Judge(r, name, s, rd, statusNames[si], outNames[oi], &kept)
 					r.EndItem()
 				}
 			}
@@ -181,7 +182,27 @@ func c15Run(r *core.Run) {
 	}
 }
 
-func c15Judge(r *core.Run, name string, s *c15Script, rd [64]byte, stName, olName string) {
+// c15Kept remembers results handed to the caller earlier in the run together with a private
+// copy of what the device had written: a later fetch must not change them (no buffer re-use).
+type c15Kept struct {
+	name string
+	data []byte
+	want []byte
+}
+
+
+func c15CheckKept(r *core.Run, kept *[]c15Kept, after string) {
+	for i := range *kept {
+		k := &(*kept)[i]
+		if !bytes.Equal(k.data, k.want) {
+			r.Violate("C15:earlier-result-changed-by-later-call", "the quote returned by the earlier call %q was changed by the later call %q (the returned bytes alias a re-used buffer)", k.name, after)
+			k.want = append([]byte(nil), k.data...) // report once
+		}
+	}
+}
+
+func c15Judge(r *core.Run, name string, s *c15Script, rd [64]byte, stName, olName string, kept *[]c15Kept) {
+	defer c15CheckKept(r, kept, name)
 	dev := &c15Device{s: s}
 	var data []byte
 	out := core.Call(func() error {
@@ -242,6 +263,12 @@ func c15Judge(r *core.Run, name string, s *c15Script, rd [64]byte, stName, olNam
 			r.Violate("C15:wrong-bytes", "%s: returned %d bytes that are not the first OutLen=%d bytes the device wrote", name, len(data), s.outLen)
 		}
 		r.Probe("good_outcome")
+		if len(*kept) < 4 {
+			*kept = append(*kept, c15Kept{name: name, data: data, want: append([]byte(nil), dev.wrote[:s.outLen]...)})
+		} else {
+			(*kept)[int(s.outLen)%4] = c15Kept{name: name, data: data, want: append([]byte(nil), dev.wrote[:s.outLen]...)}
+			r.Probe("earlier_results_rechecked_after_later_calls")
+		}
 		if s.outLen == uint32(len(s.quoteRaw)) && s.bufKind == 0 {
 			// the parsed form equals parsing the raw form
 			dev2 := &c15Device{s: s}
@@ -380,7 +407,7 @@ func init() {
 			return 18
 		},
 		Run:         c15Run,
-		MustProbe:   []string{"good_outcome", "getquote_equals_parse", "fallback_to_device_path", "status0_bad_outlen_0", "status0_bad_outlen_buffer+1"},
+		MustProbe:   []string{"good_outcome", "earlier_results_rechecked_after_later_calls", "getquote_equals_parse", "fallback_to_device_path", "status0_bad_outlen_0", "status0_bad_outlen_buffer+1"},
 		SimTimeNote: "no clock in this property",
 	})
 }
